@@ -2,14 +2,16 @@
 # usage: scripts/check.sh <ID> [quick|thorough] [--replay path]
 # Rebuilds the driver against /repo's current working tree (build tag verif) and runs one property check.
 ID="$1"; TIER="${2:-quick}"; shift; shift
+ROOT=$(cd "$(dirname "$0")/.." && pwd)
+export VERIF_ROOT="$ROOT"
 export GOFLAGS=-mod=mod GOPROXY=off
 export VERIF_TIER="$TIER"
 S=$(mktemp -d /tmp/verif-check.XXXXXX) || exit 2
 trap 'rm -rf "$S"' EXIT INT TERM
-cd /verif/harness || exit 2
+cd "$ROOT/harness" || exit 2
 cp /repo/go.sum go.sum 2>/dev/null
 if ! go build -tags verif -o "$S/driver" ./cmd/driver > "$S/build.log" 2>&1; then
   echo "MACHINERY-FAILURE property=$ID cannot build the harness against /repo:"; cat "$S/build.log"; exit 2
 fi
-cd /verif || exit 2
+cd "$ROOT" || exit 2
 TMPDIR="$S" "$S/driver" "$ID" "$@"
